@@ -59,8 +59,11 @@ def make_env(fn, p, seed):
         term = envs.mk_term({'name': 'reach_exit'})
     types = [go.Floor, go.Wall, go.Exit, go.Door, go.Key, go.MovingObstacle, go.Telepod, go.Beacon]
     actions = list(Action) if fn == 'keydoor' else [Action[a] for a in NAV_ACTIONS]
+    # the colours the state space lists are a seed-chosen subset (states are not required to use listed colours only: the criteria are
+    # shape, types, agent cell, held type); with the library's debug checks on, every step of a witness passes the membership test
+    listed = [c for i, c in enumerate(go.Color) if (seed >> (2 + i)) & 1] if seed % 3 == 0 else list(go.Color)
     env = GridWorld(
-        StateSpace(Shape(*p['shape']), types, list(go.Color)), ActionSpace(actions), ObservationSpace(Shape(3, 3), types, list(go.Color)),
+        StateSpace(Shape(*p['shape']), types, listed), ActionSpace(actions), ObservationSpace(Shape(3, 3), types, list(go.Color)),
         functools.partial(REG[fn], **kw), envs.mk_transition(chain), envs.mk_obs('fully_transparent', [[-2, 0], [-1, 1]]), reward, term,
     )
     env.set_seed(seed)
